@@ -355,7 +355,11 @@ func processFetchForMessage(deps ServerDeps, conn net.Conn, messageID, uid int64
 
 					// Append response
 					if payload == "" {
-						responseParts = append(responseParts, fmt.Sprintf("BODY[%s] NIL", sectionSpec))
+						if partialStartPos >= 0 {
+							responseParts = append(responseParts, fmt.Sprintf("BODY[%s]<%d> NIL", sectionSpec, partialStartPos))
+						} else {
+							responseParts = append(responseParts, fmt.Sprintf("BODY[%s] NIL", sectionSpec))
+						}
 					} else {
 						// Include partial start position in response if this was a partial fetch
 						if partialStartPos >= 0 {
